@@ -150,4 +150,17 @@ theorem kernel_u256_idiv_u128_special (prof : Profile) (xh xl y : Nat) (hy0 : 0 
     Gen.K.u256_idiv_u128_special_k prof xh xl y = u256IdivU128Special prof xh xl y :=
   Kernels.u256_idiv_u128_special_eq prof xh xl y hy0 hy hxl
 
+/-! ### algebraic laws
+The unconditional form of `C02.mul_commutes` (the wide path discharged by `wide_mul`). -/
+
+/-- `x * y = y * x`, as outcomes, unless both operands are representations of one with different numbers of fractional digits
+    (then each product is its left operand: `C02.mul_ones`) -/
+theorem mul_commutes (prof : Profile) (tm : Mode) (x y : Dec) (hx : Dom x) (hy : Dom y)
+    (h11 : x.coeff = (10 : Int) ^ x.nfrac → y.coeff = (10 : Int) ^ y.nfrac → x.nfrac = y.nfrac) :
+    mul prof tm x y = mul prof tm y x := C02.mul_commutes wide_mul prof tm x y hx hy h11
+
+-- a product that takes the wide path (the exact product does not fit an i128), in both orders
+example : mul Profile.dev .heven ⟨I128_MAX, 18⟩ ⟨-5, 1⟩ = .ok ⟨-85070591730234615865843651857942052864, 18⟩ ∧
+    mul Profile.dev .heven ⟨-5, 1⟩ ⟨I128_MAX, 18⟩ = .ok ⟨-85070591730234615865843651857942052864, 18⟩ := by decide
+
 end Fpdec.Props.C16
